@@ -82,6 +82,13 @@ def _close_mu(a, b, scale, rel=1e-9):
     return abs(a - b) <= rel * max(scale, abs(a), abs(b)) + 4 * ulp(max(abs(a), abs(b)))
 
 
+def _close_sigma(a, b, srel, st, sg_infl):
+    """posterior sigmas agree: 1e-9 relative; in Thurstone-Mosteller games with ties within W~'s cancellation noise [srel]
+    amplified by 1/f where the variance factor f is small (compare.tm_sigma_tol)"""
+    from .compare import tm_sigma_tol
+    return _close_rel(a, b, srel if srel <= 1e-9 else tm_sigma_tol(srel, st["kappa"], sg_infl, a, b))
+
+
 def _close_rel(a, b, rel=1e-9):
     return abs(a - b) <= rel * max(abs(a), abs(b)) + 4 * ulp(max(abs(a), abs(b)))
 
@@ -322,7 +329,7 @@ def mon_C04(rng, budget, tier):
                     a, b = base[o][j], got[new][jj]
                     sc = max(abs(a[0]), infl[o][j][1])
                     allow = _tm_tie_mu_allow(kind, st, infl, keys, o, j)
-                    if not (_close_mu(a[0], b[0], sc) or abs(a[0] - b[0]) <= allow + 1e-9 * max(sc, abs(a[0]), abs(b[0]))) or not _close_rel(a[1], b[1], srel):
+                    if not (_close_mu(a[0], b[0], sc) or abs(a[0] - b[0]) <= allow + 1e-9 * max(sc, abs(a[0]), abs(b[0]))) or not _close_sigma(a[1], b[1], srel, st, infl[o][j][1]):
                         mon.fail("permutation", case, "player [%d][%d] gets %s in the original listing and %s after "
                                  "reordering (sigma tolerance %.1e)" % (o, j, a, b, srel))
     api.pool(False)
@@ -1606,7 +1613,7 @@ def mon_C16(rng, budget, tier):
                     x, y = base[t][j], got[t][j]
                     sc = max(abs(x[0]), abs(y[0]), abs(a_), infl[t][j][1])
                     allow = _tm_tie_mu_allow(kind, st, infl, order, t, j, transformed=True)
-                    if not (_close_mu(x[0] + a_, y[0], sc) or abs(x[0] + a_ - y[0]) <= allow + 1e-9 * sc) or not _close_rel(x[1], y[1], srel):
+                    if not (_close_mu(x[0] + a_, y[0], sc) or abs(x[0] + a_ - y[0]) <= allow + 1e-9 * sc) or not _close_sigma(x[1], y[1], srel, st, infl[t][j][1]):
                         mon.fail("rate under a shift of all mu", case, "player [%d][%d]: %s shifted by %r, got %s (sigma tolerance %.1e)" % (t, j, x, a_, y, srel))
             ps = [call_predict(op, kind, st, nums_s) for op in ("pwin", "pdraw", "prank")]
             if not _pred_close(pbase, ps):
@@ -2172,7 +2179,7 @@ def _spec_diff(kind, st, infl, keys, got, want, srel):
             a, b = got[t][j], want[t][j]
             sc = max(abs(b[0]), infl[t][j][1])
             allow = _tm_tie_mu_allow(kind, st, infl, keys, t, j)
-            if not (_close_mu(a[0], b[0], sc) or abs(a[0] - b[0]) <= allow + 1e-9 * max(sc, abs(a[0]), abs(b[0]))) or not _close_rel(a[1], b[1], srel):
+            if not (_close_mu(a[0], b[0], sc) or abs(a[0] - b[0]) <= allow + 1e-9 * max(sc, abs(a[0]), abs(b[0]))) or not _close_sigma(a[1], b[1], srel, st, infl[t][j][1]):
                 return "player [%d][%d]: rate returned %s, closed form gives %s" % (t, j, a, b)
     return None
 
